@@ -8,6 +8,7 @@ import logging
 from typing import TYPE_CHECKING, Any
 
 from pyopenapi_gen.core.writers.code_writer import CodeWriter
+from pyopenapi_gen.core.writers.python_construct_renderer import py_string_literal
 
 # No specific utils needed yet, but NameSanitizer might be if param names are manipulated here
 
@@ -69,9 +70,20 @@ class EndpointRequestGenerator:
             args_list.append("json=None")
             args_list.append("data=None")
 
+        # A body passed as raw bytes (data=bytes_body) carries no media type of its own: name the declared one,
+        # otherwise the request goes out without any Content-Type header
+        raw_body_content_type: str | None = None
+        if op.request_body and "data=bytes_body" in args_list and primary_content_type:
+            raw_body_content_type = py_string_literal(primary_content_type)
+
         # Determine 'headers' argument
         if has_header_params:  # This flag comes from UrlArgsGenerator
-            args_list.append("headers=headers")  # Assumes headers dict is defined
+            if raw_body_content_type:
+                args_list.append(f'headers={{"Content-Type": {raw_body_content_type}, **headers}}')
+            else:
+                args_list.append("headers=headers")  # Assumes headers dict is defined
+        elif raw_body_content_type:
+            args_list.append(f'headers={{"Content-Type": {raw_body_content_type}}}')
         else:
             args_list.append("headers=None")
 
